@@ -321,7 +321,7 @@ def run(rng, res, tier, shard, nshards):
     budget = Budget(CASES[tier] // nshards + 1, SECONDS[tier])
     while budget.more():
         nn = rng.choice([3, 4, 8, 30, 200])
-        na = rng.randint(1, 4)
+        na = rng.randint(1, 4) if rng.random() < 0.9 else rng.randint(5, 12)
         hist = gen_history(rng, rng.randint(1, 80), na)
         f = run_history_safe(nn, na, hist, res)
         res.case(digest([nn, na, hist]))
